@@ -193,9 +193,27 @@ def scene(magpy, r, variant):
         lambda n: magpy.current.Polyline(vertices=[(0, 0, 0), (0.5, 0, 0), (0.5, 0.5, 0.1), (0, 0, 0)], current=0.8, position=path(n), orientation=rots(n)),
         lambda n: magpy.misc.Dipole(moment=(0.3, 0.1, 0.5), position=path(n), orientation=rots(n)),
     ]
+    # a second object of every class with the SAME array sizes (vertex / face counts) but other geometry and excitation:
+    # several sources of one class are evaluated in one vectorised group, per-object evaluation must agree with it
+    mk2 = [
+        lambda n: magpy.magnet.Cuboid(dimension=(0.9, 0.4, 0.6), polarization=(-0.3, 0.1, 0.2), position=path(n), orientation=rots(n)),
+        lambda n: magpy.magnet.Cylinder(dimension=(0.5, 0.9), polarization=(-0.1, 0.4, 0.2), position=path(n), orientation=rots(n)),
+        lambda n: magpy.magnet.CylinderSegment(dimension=(0.1, 0.7, 0.4, -120, 45), polarization=(0.3, -0.2, 0.2), position=path(n), orientation=rots(n)),
+        lambda n: magpy.magnet.Sphere(diameter=0.5, polarization=(-0.3, 0.2, 0.1), position=path(n), orientation=rots(n)),
+        lambda n: magpy.magnet.Tetrahedron(vertices=TET_V * np.array([0.5, 0.9, 0.7]), polarization=(-0.2, 0.1, 0.4), position=path(n), orientation=rots(n)),
+        lambda n: magpy.magnet.TriangularMesh(vertices=CUBE_V * np.array([0.9, 0.5, 0.4]), faces=CUBE_F, polarization=(-0.2, 0.2, 0.3), position=path(n), orientation=rots(n)),
+        lambda n: magpy.misc.Triangle(vertices=[(0.1, 0, 0), (0.5, 0.2, 0), (0, 0.6, -0.2)], polarization=(-0.1, 0.3, 0.2), position=path(n), orientation=rots(n)),
+        lambda n: magpy.current.Circle(diameter=0.6, current=-2.1, position=path(n), orientation=rots(n)),
+        lambda n: magpy.current.Polyline(vertices=[(0.1, 0, 0), (0.4, 0.3, 0), (-0.2, 0.5, 0.2), (0.1, 0, 0)], current=-1.7, position=path(n), orientation=rots(n)),
+        lambda n: magpy.misc.Dipole(moment=(-0.2, 0.4, 0.1), position=path(n), orientation=rots(n)),
+    ]
     nsrc = 2 + variant % 2
     lens = [1 + (variant + j) % 3 for j in range(nsrc)]
-    sources = [mk[(variant + 3 * j) % len(mk)](lens[j]) for j in range(nsrc)]
+    if variant % 3 == 2:
+        i = (variant // 3) % len(mk)
+        sources = [mk[i](lens[0]), mk2[i](lens[1])] + ([mk[(i + 4) % len(mk)](lens[2])] if nsrc == 3 else [])
+    else:
+        sources = [mk[(variant + 3 * j) % len(mk)](lens[j]) for j in range(nsrc)]
     nsens = 1 + (variant // 2) % 2
     sensors = []
     for k in range(nsens):
@@ -217,7 +235,8 @@ def form_events(args):
     n = 0
     TOL_SAME, TOL_RE = 2, 10000
     with open(path, "w") as f:
-        for variant in range(nvar):
+        base = max(0, tid0 // 1_000_000 - 100) * nvar          # every worker covers its own range of variants
+        for variant in range(base, base + nvar):
             sources, sensors = scene(magpy, r, variant)
             for field in ("B", "H", "J", "M")[: 2 + variant % 3]:
                 top = {"B": magpy.getB, "H": magpy.getH, "J": magpy.getJ, "M": magpy.getM}[field]
@@ -234,6 +253,8 @@ def form_events(args):
                     alts.append(("src_method", l + 1, 0, (lambda l=l: getattr(sources[l], meth)(*sensors, squeeze=False)), TOL_SAME))
                 for k in range(K):
                     alts.append(("sens_method", 0, k + 1, (lambda k=k: getattr(sensors[k], meth)(*sources, squeeze=False)), TOL_SAME))
+                for k in range(K):
+                    alts.append(("sens_method_sumup", 0, k + 1, (lambda k=k: getattr(sensors[k], meth)(*sources, sumup=True, squeeze=False)), TOL_SAME))
                 alts.append(("coll_src", 0, 0, lambda: _coll(magpy, sources, meth, sensors), TOL_SAME))
                 alts.append(("coll_sens", 0, 0, lambda: _coll(magpy, sensors, meth, sources), TOL_SAME))
                 alts.append(("coll_both", 0, 0, lambda: _coll(magpy, sources + sensors, meth, []), TOL_SAME))
@@ -254,7 +275,7 @@ def form_events(args):
                         ev["alt"] = quant.q12(flat, s)
                         if form == "src_method":
                             ev["malt"] = int(np.asarray(out).shape[1])
-                        elif form == "sens_method":
+                        elif form in ("sens_method", "sens_method_sumup"):
                             ev["malt"] = int(np.asarray(out).shape[1])
                     except Exception as ex:  # pylint: disable=broad-except
                         ev["outcome"] = "exc:" + type(ex).__name__
